@@ -961,6 +961,12 @@ class Interp:
                 return r
         if s2 in IDENTITY and args:
             return args[0]
+        if s2 in ("PartialEq::eq", "PartialEq::ne") and len(args) == 2:
+            # two known field-less enum values (`op == FilterOp::Delete` with op a constant of the call site): equal iff same variant
+            a, b = args
+            if a[0] == "adt" and b[0] == "adt" and a[1] == b[1] and not a[3] and not b[3] and not is_opt(a) and not is_res(a):
+                r = a[2] == b[2]
+                return ("lit", r if s2.endswith("eq") else not r)
         if s2 == "Iterator::next" and args:
             # std::iter::from_fn(f): each `next` is a call of f
             x = args[0]
